@@ -19,7 +19,14 @@ let rec int_of_pos (p : M.positive) : int = match p with
 let int_of_n (x : M.n) : int = match x with M.N0 -> 0 | M.Npos p -> int_of_pos p
 let rec nat_of_int (i : int) : M.nat = if i <= 0 then M.O else M.S (nat_of_int (i - 1))
 let z_of_int (i : int) : M.z = if i = 0 then M.Z0 else if i > 0 then M.Zpos (pos_of_int i) else M.Zneg (pos_of_int (-i))
-let int_of_z (x : M.z) : int = match x with M.Z0 -> 0 | M.Zpos p -> int_of_pos p | M.Zneg p -> - (int_of_pos p)
+(* decimal text of a Z without going through OCaml's 63-bit ints: little-endian digit lists *)
+let rec dbl (carry : int) (d : int list) : int list = match d with
+  | [] -> if carry = 0 then [] else [carry]
+  | x :: t -> let v = 2 * x + carry in (v mod 10) :: dbl (v / 10) t
+let rec digits_of_pos (p : M.positive) : int list = match p with
+  | M.XH -> [1] | M.XO q -> dbl 0 (digits_of_pos q) | M.XI q -> dbl 1 (digits_of_pos q)
+let string_of_pos p = String.concat "" (List.rev_map string_of_int (digits_of_pos p))
+let string_of_z (x : M.z) : string = match x with M.Z0 -> "0" | M.Zpos p -> string_of_pos p | M.Zneg p -> "-" ^ string_of_pos p
 
 let bytes_of_hex s = List.map n_of_int (ints_of_hex s)
 let hex_of_bytes l = hex_of_ints (List.map int_of_n l)
@@ -122,7 +129,7 @@ let run (toks : string list) : string =
                       (nat_of_int (int_of_string keylen)) (nat_of_int hs))
   | ["esc"; name] -> hex_of_bytes (M.escape_name (bytes_of_hex name))
   | ["unesc"; name] -> (match M.unescape_name (bytes_of_hex name) with Some x -> hex_of_bytes x | None -> "!")
-  | ["atoi"; t] -> (match M.go_atoi (bytes_of_hex t) with Some z -> string_of_int (int_of_z z) | None -> "!")
+  | ["atoi"; t] -> (match M.go_atoi (bytes_of_hex t) with Some z -> string_of_z z | None -> "!")
   | ["b64d"; t] -> (match M.go_b64dec (bytes_of_hex t) with Some x -> hex_of_bytes x | None -> "!")
   | k :: _ -> "UNKNOWN-KIND-" ^ k
   | [] -> "EMPTY"
